@@ -323,7 +323,7 @@ var _ = ctrl.New
 
 // Prop returns the C06 check.
 func Prop() *core.Prop {
-	req := []string{"stress_histories", "sentinels_answered", "routed_to_caller", "routed_to_handler", "porcupine_partitions",
+	req := []string{"stress_histories", "sentinels_answered", "routed_to_caller", "routed_to_handler", "elements_the_handler_read_to_their_end", "porcupine_partitions",
 		"receipts_acknowledged", "receipts_cancelled", "receipt_messages_with_text_or_siblings_around_the_payload", "cancellations_placed_at_the_hand_over", "forced_scenarios", "fast_peer_holds", "fast_peer_answer_processed_while_sender_held", "requests_explicitly_namespaced", "requests_with_empty_id_attribute", "component_stream_histories", "close_deadline_moved_during_waits", "broken_replies_survived", "failed_transmissions_answered_by_peer",
 		"muc_wait_cases", "ibb_wait_cases", "C18/join_success", "C18/join_cancelled", "C18/join_room_error_returned", "C18/leave_success", "C18/barriers", "C18/forced_M1_reached",
 		"C15/transfers", "C15/eof_after_close", "C15/refused_opens", "C15/listener_cases"}
